@@ -103,7 +103,7 @@ def strategy(tier):
 
 def budget(tier):
     if tier == 'quick':
-        return {'max_examples': 640, 'shards': 8, 'time_budget': 100}
+        return {'max_examples': 1280, 'shards': 16, 'time_budget': 100}
     return {'max_examples': 64000, 'shards': 16, 'time_budget': 1500}
 
 
